@@ -188,7 +188,7 @@ P("C23", "exploration",
   {"uploads.chunk-frames": 5000, "uploads.repeated-request-while-in-flight": 300, "uploads.timeouts": 200, "uploads.unservable-requests": 500, "uploads.slot-release-checks": 10000})
 
 P("C24", "exploration",
-  "case = history of 8..67 assigned-fetch ANNOUNCEs (incl. re-announces of an in-flight fetch from the same or another peer), chunk arrivals, ticks and clock steps (next_attempt-1ns / exact / +1ns) with peers that do / do not have a session (send succeeds / fails) and providers whose session goes away in the middle of the history (sends that succeeded start to fail); limits 0..3, back-off 1..5 s doubling to <= 125 s, attempt limit 0..12; "
+  "case = history of 8..67 assigned-fetch ANNOUNCEs (incl. re-announces of an in-flight fetch from the same or another peer), chunk arrivals, ticks and clock steps (next_attempt-1ns / exact / +1ns) with peers that do / do not have a session (send succeeds / fails) and providers whose session goes away in the middle of the history (sends that succeeded start to fail); limits 0..3, back-off 1..5 s doubling to <= 125 s, attempt limit 0..12; one case in eight follows one fetch over 40..110 consecutive failed attempts (attempt limit 0 or 33..255, clock stepped from retry time to retry time); "
   "oracle after every step: per-peer in-flight <= limit and equal to the node's counter (absent when zero), failed-attempt delays = initial*2^(k-1) capped at max (plateau after 8 doublings accepted), a send that fails with the attempt limit already used up is never scheduled again (decided from the observed history), after a scheduling pass no fetch whose chunk is held / manifest expired / attempts exhausted; finally nothing pending; distinct = sequence hash",
   [H("main", "h_node2", 2000, 200000, hprop="C24")], [A_SAN, A_VCLK, "in-flight is read from the node's pending table (hooked state); only failed attempts count towards the attempt limit (docs: 'cap on retries')"],
   {"fetch.request-frames": 2000, "fetch.backoff-delays-checked": 2000, "fetch.reannounce-of-in-flight-fetch": 200, "fetch.termination-checks": 3000, "fetch.chunk-arrivals": 300, "fetch.providers-gone-away": 300})
@@ -217,7 +217,7 @@ P("C26", "exploration",
   {"release.all-clients-left": 1500, "release.post-run-probes": 1500, "streams.huge-lines": 300, "streams.abrupt-resets": 500, "threaded.runs": 60})
 
 P("C27", "exploration",
-  "case = in-process ControlServer + Node with a random control token; 10 raw requests drawn from {STORE, FETCH STREAM:client, FETCH OUT:<path>, STOP} x token {absent, wrong, proper prefix, proper suffix, case-changed, extra whitespace, empty, doubled, exact} x shuffled header order (held and foreign manifests); "
+  "case = in-process ControlServer + Node with a random control token; 10 raw requests drawn from {STORE, FETCH STREAM:client, FETCH OUT:<path>, STOP} x token {absent, wrong, proper prefix, proper suffix, case-changed, extra whitespace, empty, doubled, exact} x shuffled header order, one request in three with header names / command word / stream mode in another case (held and foreign manifests); "
   "oracle: without the exact token STATUS:ERROR with an *UNAUTH* code, derived-state snapshot unchanged, no file at <path>, stop callback not invoked, transport not stopped, PING still answered; with the exact token the request succeeds; distinct = (command, variant) sequence",
   [H("main", "h_control", 300, 20000, hprop="C27")], [A_SAN, A_VCLK, "the daemon's STOP effect is observed through the stop callback and ControlServer's transport_stopped_ flag (TU inclusion)"],
   {"requests.unauthorised": 1500, "requests.authorised-expected-to-succeed": 60, "requests.authorised-stop": 50})
@@ -225,9 +225,9 @@ P("C27", "exploration",
 P("C28", "exploration",
   "case%4 selects: payload cap (declared lengths cap+1 .. 2^64+ with NO body byte sent: the refusal must still arrive; cap and below accepted); TTL window (min-1/min/max/max+1/0/negative/huge/malformed/absent; also the control-plane half of C02); "
   "store PoW (valid, other nonce, nonce for a shorter payload, for another filename, missing, malformed; reference = lz_ref(repository digest of (sha256(body), size, sanitised name)) >= d); "
-  "rate limit without a token (10..50 STOREs or streamed FETCHes from one address with fresh/empty/same TOKEN or other headers, virtual time steps 0..31 s; <= 6 / <= 12 accepted in any 30 s); distinct = scenario x parameter sequence",
+  "rate limit without a token (10..50 STOREs or streamed FETCHes from one address with fresh/empty/same TOKEN or other headers, one STORE in five carrying a TTL the daemon refuses, virtual time steps 0..31 s; <= 6 / <= 12 accepted in any 30 s); distinct = scenario x parameter sequence",
   [H("main", "h_control", 400, 30000, hprop="C28")], [A_SAN, A_VCLK, A_OSSL],
-  {"size.oversized-declarations": 150, "ttl.out-of-window-requests": 150, "ttl.in-window-requests": 100, "pow.invalid-proofs": 150, "pow.valid-proofs": 30, "rate.refused": 40})
+  {"size.oversized-declarations": 150, "ttl.out-of-window-requests": 150, "ttl.in-window-requests": 100, "pow.invalid-proofs": 150, "pow.valid-proofs": 30, "rate.refused": 20, "rate.refused-for-another-reason": 100})
 
 P("C29", "exploration",
   "case = daemon state with 0..40 chunks, 0..4 advertised endpoints, 0..3 bootstrap nodes, 0..3 warnings; the repository's own ControlClient sends LIST / DEFAULTS / STATUS / DIAGNOSTICS / STORE / FETCH to the in-process server; "
@@ -280,13 +280,13 @@ CLI_TARGETS = ["ephemeralnet", "ephemeralnet_relay", "mtool"]
 
 P("C30", "exploration",
   "case = one black-box run of the sanitizer-built `eph fetch` where exactly one discovery path exists (control hint, control:// fallback, local daemon via --control-port, transport hint to a real Node whose stored ciphertext was overwritten; relay hint in the thorough tier) "
-  "and the endpoint on that path answers {the payload, truncated, extended, other bytes of equal length, empty, ciphertext of another payload}; oracle: an output file exists => sha256(file) == manifest content hash; honest bytes must produce the file (non-vacuity); distinct = (path, response, size, outcome)",
+  "and the endpoint on that path answers {the payload, truncated, extended, other bytes of equal length, empty, ciphertext of another payload}, and on the control paths a manifest whose chunk id is not its content hash {the payload, bytes hashing to the chunk id}; oracle: an output file exists => sha256(file) == manifest content hash; honest bytes must produce the file (non-vacuity); distinct = (path, response, size, outcome)",
   [dict(name="cli", py=drv_cli.c30, targets=CLI_TARGETS)], [A_SAN, "scripted control endpoints are operated by the harness; lying peers are real Nodes (mtool liar)"],
-  {"fetch.runs": 20, "fetch.honest-successes": 4, "fetch.dishonest-runs": 10})
+  {"fetch.runs": 20, "fetch.honest-successes": 4, "fetch.dishonest-runs": 10, "fetch.manifests-with-caller-chosen-chunk-id": 4})
 
 P("C31", "exploration",
   "part cli: black-box `eph fetch <manifest with hostile filename metadata>` into a directory (new directory with trailing slash / existing directory / --fetch-default-dir) with the cwd inside a sandbox; the whole sandbox tree is diffed: exactly one new regular file, a direct child of the chosen directory, "
-  "name without separators / control / reserved characters and not . or ..; part node: Node::store_chunk with the same name generator: the recorded manifest filename obeys the same predicate or is absent; distinct = (name, mode)",
+  "name without separators / control / reserved characters and not . or ..; names include hostile pieces at the start / middle / end / as the extension of fillers around and beyond the 255-byte cap; part node: Node::store_chunk with the same name generator: the recorded manifest filename obeys the same predicate or is absent; distinct = (name, mode)",
   [dict(name="cli", py=drv_cli.c31, targets=CLI_TARGETS), H("node", "h_node2", 1500, 150000, hprop="C31n")], [A_SAN],
   {"names.cli-runs": 50, "names.hostile-metadata-neutralised": 15, "names.stores": 20000, "names.recorded": 5000})
 
